@@ -52,6 +52,46 @@ def core_pool(tier):
         p.append((n, None))
     p += [("DW_TAG_array_type value", ("int", 1, "arith")), ("DW_AT_sibling hex", ("int", 1, "arith"))]
     p += [("0 0 aset", None), ("0 1 aset", None), ("1 2 aset", None), ("0 2 aset", None), ("0 1 aset 2 3 aset add", None), ("1 0 aset", None)]
+    if tier == "thorough":
+        have = {t for t, _ in p}
+
+        def add(t, k):
+            if t not in have:
+                have.add(t)
+                p.append((t, k))
+        # integer lattice in every radix
+        for v in (2, 7, 8, 255, 256, (1 << 31) - 1, 1 << 31, (1 << 32), (1 << 63) - 1, 1 << 63, (1 << 64) - 2):
+            add("%d" % v, ("int", v, "arith"))
+            add("0x%x" % v, ("int", v, "arith"))
+            if v < 1 << 33:
+                add("0o%o" % v, ("int", v, "arith"))
+                add("0b%s" % bin(v)[2:], ("int", v, "arith"))
+        for v in (-2, -255, -(1 << 31), -(1 << 63) + 1):
+            add("%d" % v, ("int", v, "arith"))
+            add("-0x%x" % -v, ("int", v, "arith"))
+        # every byte string of up to 2 bytes over {00, 'a', 'b', ff}
+        for n in (1, 2):
+            for bs in itertools.product((0, 0x61, 0x62, 0xff), repeat=n):
+                add('"' + "".join("\\x%02x" % c for c in bs) + '"', ("str", bytes(bs)))
+        add('"abc"', ("str", b"abc"))
+        add('"ab\\x00"', ("str", b"ab\x00"))
+        # every sequence of up to 2 elements over a small homogeneous and a heterogeneous alphabet
+        for n in (1, 2):
+            for xs in itertools.product((0, 1, 2, 3), repeat=n):
+                add("[" + ", ".join(map(str, xs)) + "]", ("seq", list(xs)))
+            for xs in itertools.product(("1", '"a"', "[]", "[1]", "true"), repeat=n):
+                add("[" + ", ".join(xs) + "]", None)
+        add("[1, 2, 3]", ("seq", [1, 2, 3]))
+        add("[[1, 2]]", ("seq", [[1, 2]]))
+        add("[[1], [2]]", ("seq", [[1], [2]]))
+        for t in ("0 4 aset", "2 4 aset", "0 1 aset 3 4 aset add", "0xffffffffffffff00 0xffffffffffffffff aset", "0 0xffffffffffffffff aset"):
+            add(t, None)
+        for t in ("DW_TAG_lo_user", "DW_TAG_hi_user", "DW_AT_lo_user", "DW_AT_hi_user", "DW_OP_lo_user", "DW_OP_hi_user", "DW_LANG_lo_user", "DW_ATE_lo_user", "DW_FORM_data1",
+                  "DW_FORM_udata", "DW_LANG_C", "DW_LANG_C99", "DW_ATE_signed", "DW_ATE_boolean", "DW_ACCESS_private", "DW_VIS_exported", "DW_VIRTUALITY_none",
+                  "DW_INL_not_inlined", "DW_CC_program", "DW_ORD_row_major", "DW_END_little", "DW_DS_leading_overpunch", "DW_OP_lit0", "DW_OP_reg0", "DW_OP_breg0",
+                  "STT_TLS", "STT_COMMON", "STV_INTERNAL", "STV_PROTECTED", "T_CLOSURE", "T_DIE", "T_ATTR", "T_ASET", "DW_TAG_array_type 1 add", "DW_AT_sibling 1 add",
+                  "STT_FUNC value", "STB_GLOBAL value", "DW_LANG_C89 hex", "true value", "false value"):
+            add(t, None)
     return p
 
 
@@ -77,6 +117,20 @@ def dw_pool(tier):
             p += ["%s symbol (pos == %d) label" % (h, k), "%s symbol (pos == %d) binding" % (h, k)]
         p += ["%s symbol (pos == 1) visibility" % h]
         p += ["%s symbol (pos == 1)" % h]
+    if tier == "thorough":
+        for h in "DEF":
+            for k in (0, 3, 4, 5):
+                p += ["%s entry (pos == %d)" % (h, k), "%s raw entry (pos == %d)" % (h, k)]
+            for k in (0, 1, 2):
+                p += ["%s entry (pos == 3) attribute (pos == %d)" % (h, k), "%s entry (pos == 3) attribute (pos == %d) value" % (h, k)]
+            p += ["%s entry (pos == 3) abbrev" % h, "%s unit (pos == 0) root" % h, "%s entry (pos == 3) parent" % h, "%s entry (pos == 3) root" % h,
+                  "%s symbol (pos == 3)" % h, "%s symbol (pos == 3) label" % h, "%s symbol (pos == 3) address" % h, "%s symbol (pos == 3) name" % h]
+        seen, q = set(), []
+        for x in p:
+            if x not in seen:
+                seen.add(x)
+                q.append(x)
+        p = q
     return [(x, None) for x in p]
 
 
